@@ -1492,7 +1492,10 @@ def _field_names_used(f):
 
 
 def _owning(ty):
-    return bool(re.search(r"Cell|Vec<|String|HashMap|EnvironmentMap|Rc<|Box<", ty or ""))
+    ty = ty or ""
+    if re.match(r"^(for<[^>]*> )?(unsafe )?(extern \"[^\"]*\" )?fn\(", ty) or ty.startswith("&'static "):
+        return False        # a function pointer or a static reference owns nothing
+    return bool(re.search(r"Cell|Vec<|String|HashMap|EnvironmentMap|Rc<|Box<", ty))
 
 
 def r12y(ctx, rep, rule="R12y"):
@@ -1554,49 +1557,65 @@ def r12y(ctx, rep, rule="R12y"):
 
 
 def r12z(ctx, rep, rule="R12z"):
-    """the weight of a procedure covers every field that owns memory"""
+    """the weight of a heap value covers every field of its type that owns memory"""
+    from ..flow import fields_read_of_self
     facts = ctx["facts"]
-    rep.rule(rule, "a procedure is one cell: its code, its formals, its environment map and the datum it is described by "
-             "(Lambda.desc_args, a Cell copy of the formals with a String per name) are fields of the Lambda. The weigher's arm "
-             "for a Lambda reads every field of the type that owns memory (the table is the type definition). 1000 "
-             "evaluations of (lambda (<1 MB symbol>) 1) held 990 MB for 3 MB of live data.")
+    rep.rule(rule, "a heap value is one cell and a struct behind it: a procedure's code, formals, environment map and the datum it is "
+             "described by (Lambda.desc_args, a Cell copy of the formals with a String per name); a continuation's saved stack; "
+             "an environment's slots; a vector's elements. For every VCell variant whose payload is a reference-counted struct of "
+             "this crate, the weigher's arm for the variant reads every field of the struct that owns memory — directly or "
+             "through a method of the struct that reads it (the table is the type definition, not a list of remembered "
+             "fields). 1000 evaluations of (lambda (<1 MB symbol>) 1) held 990 MB for 3 MB of live data while desc_args was "
+             "not read. (A macro's Transform and Pattern are R12y's.)")
     weigher, kinds = _r12_weighed_kinds(facts)
     if weigher is None:
         rep.anchor_lost(rule, "the weigher of Heap::put")
         return
     sw = disc_switches(facts, weigher, "marwood::vm::vcell::VCell")[0]
-    region = arm_region(weigher, sw, "Lambda")
-    used = set()
-
-    def visit(p_):
-        for e in (p_ or {}).get("p", []):
-            if isinstance(e, dict) and "f" in e:
-                used.add(e["n"])
-    for bb, j_, st in weigher.stmts():
-        if bb in region:
-            for pr in places_read(st["rv"]):
-                visit(pr)
-    for bb, t in weigher.calls():
-        if bb in region:
-            for a_ in t["args"]:
-                visit(op_place(a_))
-    a = facts.adts.get("marwood::vm::lambda::Lambda")
-    if a is None or not region:
-        rep.anchor_lost(rule, "Lambda / its arm in the weigher")
-        return
+    vc = facts.adts.get("marwood::vm::vcell::VCell")
     n = 0
-    for v in a["variants"]:
-        for fld in v["fields"]:
-            if not _owning(fld.get("ty")):
-                continue
+    for v in vc["variants"]:
+        if not v["fields"]:
+            continue
+        m = re.match(r"^std::rc::Rc<(marwood::[A-Za-z_:]+)>$", v["fields"][0].get("ty") or "")
+        if not m or m.group(1) not in facts.adts or m.group(1) == "marwood::vm::transform::Transform":
+            continue
+        adt_path = m.group(1)
+        adt = facts.adts[adt_path]
+        own = [fld for vv in adt["variants"] for fld in vv["fields"] if _owning(fld.get("ty")) or
+               ((fld.get("ty") or "").startswith("marwood::") and (fld.get("ty") or "") in facts.adts)]
+        if not own:
+            continue
+        region = arm_region(weigher, sw, v["name"])
+        used = set()
+
+        def visit(p_):
+            for e in (p_ or {}).get("p", []):
+                if isinstance(e, dict) and "f" in e:
+                    used.add(e["n"])
+        for bb, j_, st in weigher.stmts():
+            if bb in region:
+                for pr in places_read(st["rv"]):
+                    visit(pr)
+        for bb, t in weigher.calls():
+            if bb in region:
+                for a_ in t["args"]:
+                    visit(op_place(a_))
+                c = callee(t) or ""
+                if c.startswith(adt_path + "::") and c in facts.fns:
+                    used |= set(fields_read_of_self(facts.fns[c]))
+        for fld in own:
             n += 1
             nm = fld["name"]
-            key = "%s|%s|Lambda.%s" % (rule, weigher.short.rsplit("::", 1)[-1], nm)
-            (rep.ok if nm in used else rep.fail)(
-                rule, key, "the weigher reads Lambda.%s" % nm if nm in used else
-                "%s never reads Lambda.%s (%s): what a procedure owns there weighs nothing, so dead procedures that are large in that "
-                "field pile up unseen" % (weigher.short, nm, fld.get("ty")), [sw["term"]["loc"]])
-    rep.floor(rule, "memory-owning fields of Lambda", n, 4)
+            tname = adt_path.rsplit("::", 1)[-1]
+            key = "%s|%s|%s.%s" % (rule, weigher.short.rsplit("::", 1)[-1], tname, nm)
+            ok = bool(region) and nm in used
+            (rep.ok if ok else rep.fail)(
+                rule, key, "the weigher's %s arm reads %s.%s" % (v["name"], tname, nm) if ok else
+                "%s never reads %s.%s (%s) in its arm for a %s%s: what the value owns there weighs nothing, so dead values that are "
+                "large in that field pile up unseen" % (weigher.short, tname, nm, fld.get("ty"), v["name"],
+                                                        "" if region else " (it has no arm of its own)"), [sw["term"]["loc"]])
+    rep.floor(rule, "memory-owning fields of the structs behind heap values", n, 7)
 
 
 def r12o(ctx, rep, rule="R12o"):
